@@ -666,7 +666,8 @@ bool expr_t::op_t::print(std::ostream& out, const context_t& context) const
 
   string symbol;
 
-  if (kind > TERMINALS && (kind != O_CALL && kind != O_DEFINE))
+  if (kind > TERMINALS && (kind != O_CALL && kind != O_DEFINE &&
+                           kind != O_COLON))
     out << '(';
 
   switch (kind) {
@@ -857,7 +858,8 @@ bool expr_t::op_t::print(std::ostream& out, const context_t& context) const
     break;
   }
 
-  if (kind > TERMINALS && (kind != O_CALL && kind != O_DEFINE))
+  if (kind > TERMINALS && (kind != O_CALL && kind != O_DEFINE &&
+                           kind != O_COLON))
     out << ')';
 
   if (! symbol.empty()) {
